@@ -27,7 +27,7 @@ Done == w.pc = "done"
 AsObs(o) == [res |-> o.res, rflag |-> o.rflag, assertions |-> o.assertions,
              info |-> [res |-> o.res, iflag |-> o.rflag,
                        first |-> IF o.assertions = << >> THEN "none" ELSE o.assertions[1].c,
-                       n |-> Len(o.assertions)],
+                       n |-> Len(o.assertions), aflags |-> [i \in DOMAIN o.assertions |-> o.assertions[i].flag]],
              pre |-> [ok |-> TRUE, agree |-> TRUE], marked_flagged |-> FALSE]
 
 TypeOK == /\ w.pc \in {"Start", "SkipDecode", "RootVerify", "SignedDecrypt", "SignedDecode",
